@@ -151,12 +151,27 @@ def parseOp (w : World) (ws : List String) : POp :=
         | some e =>
           let r := (Cron.nextCron e t cronHorizon).map w32
           let tags := match r with
-            | none => ["cron-none"]
+            | none => [match Cron.nextCronDay e t cronHorizon with
+                       | .beyond _ => "cron-none-year-horizon"
+                       | .exhausted => "cron-none-exhausted"
+                       | .found _ => "cron-none"]
             | some r => [if r ≤ t then "cron-wrapped" else if r - t ≤ 60 then "cron-minute" else if r - t ≤ 86400 then "cron-day"
-                         else if r - t ≤ 31 * 86400 then "cron-month" else if r - t ≤ 366 * 86400 then "cron-year" else "cron-years"]
+                         else if r - t ≤ 31 * 86400 then "cron-month" else if r - t ≤ 366 * 86400 then "cron-year"
+                         else if r - t ≤ 3 * 366 * 86400 then "cron-years" else "cron-4-years-or-more"]
               ++ (if e.dom != 4294967294 ∧ e.dow != 127 then ["cron-dom-and-dow"] else [])
               ++ (if (Cron.civil (r / 86400)).2 == (2, 29) then ["cron-feb29"] else [])
           pure (.pure [showNext r] tags)
+    | ["cronen", s, m, h, dom, mon, dow, t] => do
+        let s ← cronField? s; let m ← cronField? m; let h ← cronField? h
+        let dom ← cronField? dom; let mon ← cronField? mon; let dow ← cronField? dow
+        let t ← bounded? t (U32 - 1)
+        match Cron.parse s m h dom mon dow with
+        | none => pure (.pure ["P init=0"] ["cron-rejected"])
+        | some e =>
+          -- CronAlarm::enable() at wall second t, zone 0: activeTimer fails when calculateNextLocalTimeSec reports no instant
+          match Cron.nextCron e t cronHorizon with
+          | none => pure (.pure ["P en=0 enabled=0 rem=0"] ["cron-enable-fails"])
+          | some r => pure (.pure ["P en=1 enabled=1 rem=" ++ toString (w32 (w32 r + U32 - t))] ["cron-enable-ok"])
     | "new" :: i :: k :: rest => do
         let i ← slot? i
         let c ← (if k == "wk" then some Cls.weekly else if k == "os" then some Cls.oneshot else if k == "wd" then some Cls.workday else none)
